@@ -121,11 +121,11 @@ Definition release (combined : bool) (via_bypass : bool) (j : jstate) (s : stage
        | None => mk_js st None (js_log j)
        end.
 
-Inductive jstep (combined : bool) (mode : N) : jstate -> jstate -> Prop :=
+Inductive jstep (combined reenter : bool) (mode : N) : jstate -> jstate -> Prop :=
 | js_release : forall j s,
     js_held j = Some s ->
     (* the bypass can only concern the very first invocation of a GCM job *)
-    jstep combined mode j
+    jstep combined reenter mode j
           (release combined (negb (resubmits_after_first mode) && Nat.eqb (length (js_log j)) 1) j s)
 | js_flush_pickup : forall j,
     (* complete_job(): FLUSH_JOB_CIPHER returned NULL, FLUSH_JOB_HASH's default branch finds
@@ -133,12 +133,20 @@ Inductive jstep (combined : bool) (mode : N) : jstate -> jstate -> Prop :=
        followed by RESUBMIT_JOB.  Only reachable for a job nobody holds and that is not complete. *)
     js_held j = None -> js_status j <? IMB_STATUS_COMPLETED = true ->
     N.land (js_status j) IMB_STATUS_COMPLETED_AUTH = 0 ->
-    jstep combined mode j
-          (release combined false (mk_js (js_status j) (Some Hash) (js_log j ++ [Hash])) Hash).
+    jstep combined reenter mode j
+          (release combined false (mk_js (js_status j) (Some Hash) (js_log j ++ [Hash])) Hash)
+| js_flush_reentry : forall j s s',
+    (* complete_job() with a flush entry that hands back a job it does NOT hold ([reenter]): the job sits in
+       the manager of stage s, the flush entry of the other stage returns it all the same, and RESUBMIT_JOB
+       submits it again according to its status.  Table entries without this behaviour: [reenter] = false
+       (see [flush_entry_ok]: a strict flush entry calls nothing but flush kernels of its own managers). *)
+    reenter = true -> js_held j = Some s -> resubmit_choice (js_status j) = Some s' ->
+    jstep combined reenter mode j (mk_js (js_status j) (Some s') (js_log j ++ [s'])).
 
-Inductive jreach (combined : bool) (mode order : N) : jstate -> Prop :=
-| jr_init : jreach combined mode order (js_init mode order)
-| jr_step : forall a b, jreach combined mode order a -> jstep combined mode a b -> jreach combined mode order b.
+Inductive jreach (combined reenter : bool) (mode order : N) : jstate -> Prop :=
+| jr_init : jreach combined reenter mode order (js_init mode order)
+| jr_step : forall a b, jreach combined reenter mode order a -> jstep combined reenter mode a b ->
+                        jreach combined reenter mode order b.
 
 Definition js_done (j : jstate) : Prop := js_held j = None /\ IMB_STATUS_COMPLETED <= js_status j.
 
@@ -218,11 +226,11 @@ Definition accepted_full (c : cell) : bool :=
 (* the library runs a job with these session fields on at least one of its two checked paths *)
 Definition accepted (c : cell) : bool := accepted_light c || accepted_full c.
 
-(* acknowledged findings (known_findings.txt -> Gen/GenKnownC06.v): (mode, klen | 0, hash | 0) *)
+(* acknowledged findings (known_findings.txt -> Gen/GenKnownC06.v): (mode, klen, dir, hash), 0 = any *)
 Definition excepted (c : cell) : bool :=
-  existsb (fun '(m, k, h) => (c_mode c =? m) && ((k =? 0) || (c_klen c =? k)) && ((h =? 0) || (c_hash c =? h)))
+  existsb (fun '(m, k, d, h) => ((m =? 0) || (c_mode c =? m)) && ((k =? 0) || (c_klen c =? k)) &&
+                                ((d =? 0) || (c_dir c =? d)) && ((h =? 0) || (c_hash c =? h)))
           known_c06.
-
 
 (* ================================================================================== *)
 (* 5b. Dedicated pairings                                                               *)
@@ -396,7 +404,7 @@ Definition cipher_names (mode klen : N) (enc : bool) : option names :=
   else if mode =? IMB_CIPHER_SM4_CNTR then
     if klen =? 16 then Some (mk_names [[st "sm4_ctr"]] []) else None
   else if mode =? IMB_CIPHER_SM4_GCM then
-    if klen =? 16 then Some (mk_names [[st "sm4_ctr"]; [ex "@mgr.ghash"]] [st "sm4_ecb"; ex "imb_clear_mem"]) else None
+    if klen =? 16 then Some (mk_names [[st "sm4_ctr"]; [ex "@mgr.ghash"]] [st "sm4_ecb"]) else None
   else None.
 
 Definition crc_member (h : N) : option string :=
@@ -458,7 +466,7 @@ Definition hash_names (h : N) : option names :=
     one (stm "submit_job_zuc256_eia3" ["zuc256_eia3_16B_ooo"; "zuc256_eia3_8B_ooo"; "zuc256_eia3_ooo"])
   else if h =? IMB_AUTH_SNOW_V_AEAD then nothing
   else if h =? IMB_AUTH_GCM_SGL then nothing
-  else if h =? IMB_AUTH_GHASH then Some (mk_names [[ex "@mgr.ghash"]] [ex "memcpy"])
+  else if h =? IMB_AUTH_GHASH then Some (mk_names [[ex "@mgr.ghash"]] [])
   else if h =? IMB_AUTH_SM3 then one (st "sm3_msg_submit")
   else if h =? IMB_AUTH_HMAC_SM3 then one (st "sm3_hmac_submit")
   else if h =? IMB_AUTH_SM4_GCM then nothing
@@ -508,34 +516,43 @@ Definition matched_pats (sufs : list string) (ps : list pat) (calls : list strin
 (* the entry [w] of a variant of family [f] implements [n]:
    every callee is named by [n], every group of [n] is called, and the out-of-order managers it
    loads are exactly those of the kernels it calls *)
+(* memory helpers any entry may call (copy / wipe of local buffers): not kernels *)
+Definition neutral_helpers : list pat :=
+  [ex "memcpy"; ex "memmove"; ex "memset"; ex "imb_clear_mem"; ex "force_memset_zero"].
+
 Definition entry_ok (f : family) (n : names) (w : wrapper) : bool :=
   let sufs := suffixes_of f in
-  let ps := (names_pats n ++ n_aux n)%list in
+  let ps := (names_pats n ++ n_aux n ++ neutral_helpers)%list in
   forallb (fun c => existsb (fun p => pat_matches sufs p c) ps) (w_calls w) &&
   forallb (fun g => existsb (fun p => existsb (pat_matches sufs p) (w_calls w)) g) (n_groups n) &&
   strs_eqb (sort_strs (flat_map p_mgrs (matched_pats sufs ps (w_calls w)))) (sort_strs (w_mgrs w)).
 
-(* flush counterpart of a submit pattern: only multi-buffer kernels (those with a manager) have one *)
-Definition flush_pat (p : pat) : list pat :=
+(* flush counterpart of a submit pattern: only multi-buffer kernels (those with a manager) have one.
+   [strict] = false additionally tolerates a flush entry that calls the job's own callback again
+   (FLUSH_JOB_CUSTOM_CIPHER / FLUSH_JOB_CUSTOM_HASH): such an entry hands back jobs it does not hold. *)
+Definition flush_pat (strict : bool) (p : pat) : list pat :=
   match p_kind p, p_mgrs p with
   | Stem, _ :: _ =>
       if prefix "submit_job_" (p_name p)
       then [mk_pat Stem ("flush_job_" ++ substring 11 (String.length (p_name p) - 11) (p_name p)) (p_mgrs p)]
       else []
-  | Exact, _ => if prefix "@job." (p_name p) then [p] else []   (* custom callbacks are retried on flush *)
+  | Exact, _ => if negb strict && prefix "@job." (p_name p) then [p] else []
   | _, _ => []
   end.
 
 (* the flush entry [wf] belongs to the submit entry [ws]: it calls only flush twins of the
    submit kernels (or the documented helpers), and works on the same managers; when the submit
    side queues into a manager the flush side must be able to drain it *)
-Definition flush_entry_ok (f : family) (n : names) (ws wf : wrapper) : bool :=
+Definition flush_entry_ok (strict : bool) (f : family) (n : names) (ws wf : wrapper) : bool :=
   let sufs := suffixes_of f in
-  let fps := flat_map flush_pat (names_pats n ++ n_aux n)%list in
-  let ps := (fps ++ n_aux n)%list in
+  let fps := flat_map (flush_pat strict) (names_pats n ++ n_aux n)%list in
+  let ps := (fps ++ n_aux n ++ neutral_helpers)%list in
   forallb (fun c => existsb (fun p => pat_matches sufs p c) ps) (w_calls wf) &&
   strs_eqb (sort_strs (flat_map p_mgrs (matched_pats sufs fps (w_calls wf)))) (sort_strs (w_mgrs wf)) &&
   (strs_eqb (sort_strs (w_mgrs wf)) (sort_strs (w_mgrs ws))).
+
+(* a flush entry that may hand back a job it does not hold *)
+Definition flush_reenters (wf : wrapper) : bool := existsb (prefix "@job.") (w_calls wf).
 
 Definition find_variant_family (vt : variant_tables) : option family := family_of (vt_name vt).
 
@@ -546,21 +563,23 @@ Definition cipher_side_ok (vt : variant_tables) (mode klen dir : N) : bool :=
   | Some f, Some n =>
       let idx := calc_cipher_tab_index mode klen dir in
       match tab_get (vt_submit_cipher vt) idx, tab_get (vt_flush_cipher vt) idx with
-      | Some ws, Some wf => entry_ok f n ws && flush_entry_ok f n ws wf
+      | Some ws, Some wf => entry_ok f n ws && flush_entry_ok true f n ws wf && negb (flush_reenters wf)
       | _, _ => false
       end
   | _, _ => false
   end.
 
-Definition hash_side_ok (vt : variant_tables) (h : N) : bool :=
+(* [strict] = false: row-order view (the entry is the one of hash h); true: also no flush re-entry *)
+Definition hash_side_ok_gen (strict : bool) (vt : variant_tables) (h : N) : bool :=
   match find_variant_family vt, hash_names h with
   | Some f, Some n =>
       match tab_get (vt_submit_hash vt) h, tab_get (vt_flush_hash vt) h with
-      | Some ws, Some wf => entry_ok f n ws && flush_entry_ok f n ws wf
+      | Some ws, Some wf => entry_ok f n ws && flush_entry_ok strict f n ws wf && (negb strict || negb (flush_reenters wf))
       | _, _ => false
       end
   | _, _ => false
   end.
+Definition hash_side_ok := hash_side_ok_gen true.
 
 (* ---- "exactly": a kernel symbol does not name two different algorithms ---- *)
 (* kernels legitimately shared between cells *)
